@@ -305,70 +305,7 @@ func checkC32(p *Prog, r *Result, tier string) {
 			return true
 		})
 		r.check2(why, "PUSH", MR.Name+" / each plugin sees every workload's own resources under the workload's id", p.pos(MR.Decl), "m[workload.ID] = workload.Resources[plugin.Name()]")
-		// merge: a workload's entry is created only when absent, and each plugin's parameters are stored under that plugin's key
-		{
-			whyM := "no merge of the plugins' answers found"
-			ast.Inspect(MR.Body, func(n ast.Node) bool {
-				rs, ok := n.(*ast.RangeStmt)
-				if !ok || rs.Key == nil || rs.Value == nil {
-					return true
-				}
-				enc := p.enclosing(MR.Pkg, rs.Body.Pos())
-				sel, ok := unparen(rs.X).(*ast.SelectorExpr)
-				if !ok || sel.Sel.Name != "EngineParamsMap" {
-					return true
-				}
-				id := enc.objOf(rs.Key)
-				whyM = ""
-				perPlugin := false
-				inspectNoLit(rs.Body, func(x ast.Node) bool {
-					as, ok := x.(*ast.AssignStmt)
-					if !ok || len(as.Lhs) != 1 {
-						return true
-					}
-					ix, ok := unparen(as.Lhs[0]).(*ast.IndexExpr)
-					if !ok {
-						return true
-					}
-					if inner, ok := unparen(ix.X).(*ast.IndexExpr); ok && enc.objOf(inner.Index) == id {
-						// m[id][plugin.Name()] = v
-						if c, ok := unparen(ix.Index).(*ast.CallExpr); ok {
-							if s2, ok := unparen(c.Fun).(*ast.SelectorExpr); ok && s2.Sel.Name == "Name" {
-								perPlugin = true
-							}
-						}
-						return true
-					}
-					if enc.objOf(ix.Index) == id {
-						// whole-entry write m[id] = …: only under `if _, ok := m[id]; !ok`
-						guarded := false
-						inspectNoLit(rs.Body, func(y ast.Node) bool {
-							is, ok := y.(*ast.IfStmt)
-							if !ok || !(is.Body.Pos() <= as.Pos() && as.End() <= is.Body.End()) || is.Init == nil {
-								return true
-							}
-							if ia, ok := is.Init.(*ast.AssignStmt); ok && len(ia.Lhs) == 2 && len(ia.Rhs) == 1 {
-								if u, ok := unparen(is.Cond).(*ast.UnaryExpr); ok && u.Op == token.NOT && enc.objOf(u.X) == enc.objOf(ia.Lhs[1]) {
-									if gx, ok := unparen(ia.Rhs[0]).(*ast.IndexExpr); ok && enc.objOf(gx.Index) == id && exprStr(gx.X) == exprStr(ix.X) {
-										guarded = true
-									}
-								}
-							}
-							return true
-						})
-						if !guarded {
-							whyM = "a workload's whole entry is overwritten (`" + exprStr(as.Lhs[0]) + " = …`) each time a plugin answers for it: with two plugins the parameters of the other one (e.g. the cpu map of the share pool) are lost, depending on map iteration order"
-						}
-					}
-					return true
-				})
-				if whyM == "" && !perPlugin {
-					whyM = "the merged parameters are not stored under the answering plugin's own key"
-				}
-				return true
-			})
-			r.check2(whyM, "PUSH", MR.Name+" / the plugins' parameter sets of one workload are kept side by side", p.pos(MR.Decl), "entry created only when absent; result stored under [id][plugin.Name()]")
-		}
+		checkRemapMerge(p, r, MR, "PUSH")
 		// calcium: ListNodeWorkloads(node.Name) -> rmgr.Remap(node.Name, workloads)
 		node := DR.paramObj(1)
 		var wl types.Object
@@ -505,4 +442,71 @@ func uniqStrings(in []string) []string {
 		}
 	}
 	return out
+}
+
+// checkRemapMerge: in the manager's Remap a workload's entry is created only when absent and each plugin's parameters are
+// stored under that plugin's own key (used by C32 and C09)
+func checkRemapMerge(p *Prog, r *Result, MR *FuncNode, rule string) {
+
+	whyM := "no merge of the plugins' answers found"
+	ast.Inspect(MR.Body, func(n ast.Node) bool {
+		rs, ok := n.(*ast.RangeStmt)
+		if !ok || rs.Key == nil || rs.Value == nil {
+			return true
+		}
+		enc := p.enclosing(MR.Pkg, rs.Body.Pos())
+		sel, ok := unparen(rs.X).(*ast.SelectorExpr)
+		if !ok || sel.Sel.Name != "EngineParamsMap" {
+			return true
+		}
+		id := enc.objOf(rs.Key)
+		whyM = ""
+		perPlugin := false
+		inspectNoLit(rs.Body, func(x ast.Node) bool {
+			as, ok := x.(*ast.AssignStmt)
+			if !ok || len(as.Lhs) != 1 {
+				return true
+			}
+			ix, ok := unparen(as.Lhs[0]).(*ast.IndexExpr)
+			if !ok {
+				return true
+			}
+			if inner, ok := unparen(ix.X).(*ast.IndexExpr); ok && enc.objOf(inner.Index) == id {
+				// m[id][plugin.Name()] = v
+				if c, ok := unparen(ix.Index).(*ast.CallExpr); ok {
+					if s2, ok := unparen(c.Fun).(*ast.SelectorExpr); ok && s2.Sel.Name == "Name" {
+						perPlugin = true
+					}
+				}
+				return true
+			}
+			if enc.objOf(ix.Index) == id {
+				// whole-entry write m[id] = …: only under `if _, ok := m[id]; !ok`
+				guarded := false
+				inspectNoLit(rs.Body, func(y ast.Node) bool {
+					is, ok := y.(*ast.IfStmt)
+					if !ok || !(is.Body.Pos() <= as.Pos() && as.End() <= is.Body.End()) || is.Init == nil {
+						return true
+					}
+					if ia, ok := is.Init.(*ast.AssignStmt); ok && len(ia.Lhs) == 2 && len(ia.Rhs) == 1 {
+						if u, ok := unparen(is.Cond).(*ast.UnaryExpr); ok && u.Op == token.NOT && enc.objOf(u.X) == enc.objOf(ia.Lhs[1]) {
+							if gx, ok := unparen(ia.Rhs[0]).(*ast.IndexExpr); ok && enc.objOf(gx.Index) == id && exprStr(gx.X) == exprStr(ix.X) {
+								guarded = true
+							}
+						}
+					}
+					return true
+				})
+				if !guarded {
+					whyM = "a workload's whole entry is overwritten (`" + exprStr(as.Lhs[0]) + " = …`) each time a plugin answers for it: with two plugins the parameters of the other one (e.g. the cpu map of the share pool) are lost, depending on map iteration order"
+				}
+			}
+			return true
+		})
+		if whyM == "" && !perPlugin {
+			whyM = "the merged parameters are not stored under the answering plugin's own key"
+		}
+		return true
+	})
+	r.check2(whyM, rule, MR.Name+" / the plugins' parameter sets of one workload are kept side by side", p.pos(MR.Decl), "entry created only when absent; result stored under [id][plugin.Name()]")
 }
